@@ -362,6 +362,9 @@ def units(tier):
         Unit("lemma.residual_zero_at_truth", unit_zero_at_truth),
     ]
     us += [Unit(f"lemmas.{k}", unit_model_lemmas, key=k) for k in M.MODELS]
+    # premises of those lemmas: every shipped model function satisfies its published-formula contract
+    from . import c02
+    us += [Unit(f"model.{k}", c02.unit_model, key=k, prop="C13") for k in M.MODELS]
     us += [Unit("bounded.clifford_monotone", unit_bounded_clifford_monotone),
            Unit("bounded.harness_models", unit_bounded_harness_models)]
     if tier == "thorough" and not os.environ.get("VF_NO_CANARIES") and str(REPO) == "/repo":
